@@ -14,6 +14,7 @@ package main
 
 import (
 	"go/ast"
+	"go/constant"
 	"go/token"
 	"go/types"
 	"strconv"
@@ -181,11 +182,11 @@ func (in *inliner) unrollRange(rs *ast.RangeStmt) ast.Stmt {
 		}
 		t := in.tables()[obj]
 		if t == nil || t.mutated || t.lit == nil {
-			return nil
+			return in.unrollFixed(rs)
 		}
 		lit = t.lit
 	default:
-		return nil
+		return in.unrollFixed(rs)
 	}
 	at, ok := lit.Type.(*ast.ArrayType)
 	if !ok || len(lit.Elts) == 0 || len(lit.Elts) > maxUnrollRows {
@@ -380,6 +381,156 @@ func (in *inliner) unrollRange(rs *ast.RangeStmt) ast.Stmt {
 		return &ast.LabeledStmt{Label: nid("B" + suffix), Colon: rs.For, Stmt: sw}
 	}
 	return out
+}
+
+// unrollFixed writes out a loop whose trip count is a small compile-time constant: `for i := range arr` /
+// `for _, v := range arr` over a local array variable of at most maxFixedTrips elements (the value form only
+// when the body does not assign to the array), or `for i := range N` with a constant N.  The rows of a
+// two-element array of records (old/new directory of a RENAME) are then separate statements again.
+const maxFixedTrips = 4
+
+func (in *inliner) unrollFixed(rs *ast.RangeStmt) ast.Stmt {
+	info := in.info
+	if rs.Tok != token.DEFINE || rs.Body == nil {
+		return nil
+	}
+	n := int64(-1)
+	var arr *ast.Ident
+	switch x := ast.Unparen(rs.X).(type) {
+	case *ast.Ident:
+		if tv, ok := info.Types[x]; ok && tv.Type != nil {
+			if at, ok := tv.Type.Underlying().(*types.Array); ok {
+				if _, isVar := info.Uses[x].(*types.Var); isVar {
+					n, arr = at.Len(), x
+				}
+			}
+		}
+	default:
+		if tv, ok := info.Types[rs.X]; ok && tv.Value != nil && tv.Type != nil {
+			if b, ok := tv.Type.Underlying().(*types.Basic); ok && b.Info()&types.IsInteger != 0 {
+				if v, exact := constantInt64(tv.Value); exact && rs.Value == nil {
+					n = v
+				}
+			}
+		}
+	}
+	if n <= 0 || n > maxFixedTrips {
+		return nil
+	}
+	okBody := true
+	usesBreak, usesContinue := false, false
+	var visit func(nd ast.Node, loops, breakables int)
+	visit = func(nd ast.Node, loops, breakables int) {
+		ast.Inspect(nd, func(m ast.Node) bool {
+			if !okBody || m == nil {
+				return false
+			}
+			if m == nd {
+				return true
+			}
+			switch x := m.(type) {
+			case *ast.FuncLit:
+				return false
+			case *ast.LabeledStmt:
+				okBody = false
+			case *ast.ForStmt, *ast.RangeStmt:
+				visit(x, loops+1, breakables+1)
+				return false
+			case *ast.SwitchStmt, *ast.TypeSwitchStmt, *ast.SelectStmt:
+				visit(x, loops, breakables+1)
+				return false
+			case *ast.AssignStmt:
+				if arr != nil && rs.Value != nil { // value form: the body must not write the array
+					for _, l := range x.Lhs {
+						e := l
+						for {
+							switch y := ast.Unparen(e).(type) {
+							case *ast.IndexExpr:
+								e = y.X
+								continue
+							case *ast.SelectorExpr:
+								e = y.X
+								continue
+							}
+							break
+						}
+						if id, ok := ast.Unparen(e).(*ast.Ident); ok && info.Uses[id] == info.Uses[arr] {
+							okBody = false
+						}
+					}
+				}
+			case *ast.BranchStmt:
+				switch x.Tok {
+				case token.GOTO:
+					okBody = false
+				case token.BREAK:
+					if x.Label != nil {
+						okBody = false
+					} else if breakables == 0 {
+						usesBreak = true
+					}
+				case token.CONTINUE:
+					if x.Label != nil {
+						okBody = false
+					} else if loops == 0 {
+						usesContinue = true
+					}
+				}
+			}
+			return okBody
+		})
+	}
+	visit(rs.Body, 0, 0)
+	if !okBody {
+		return nil
+	}
+	out := &ast.BlockStmt{Lbrace: rs.For, Rbrace: rs.End()}
+	suffix := in.fresh("")
+	for k := int64(0); k < n; k++ {
+		hc := &copier{in: in, rename: map[types.Object]string{}, hostCopy: true}
+		if usesContinue {
+			hc.contLabel = "C" + suffix + "_" + strconv.FormatInt(k, 10)
+		}
+		if usesBreak {
+			hc.breakLabel = "B" + suffix
+		}
+		var stmts []ast.Stmt
+		idx := func() ast.Expr { return &ast.BasicLit{Kind: token.INT, Value: strconv.FormatInt(k, 10)} }
+		if id, ok := rs.Key.(*ast.Ident); ok && id.Name != "_" {
+			stmts = append(stmts, &ast.AssignStmt{Lhs: []ast.Expr{&ast.Ident{Name: id.Name, NamePos: id.NamePos}}, TokPos: rs.TokPos, Tok: token.DEFINE, Rhs: []ast.Expr{idx()}})
+		}
+		if rs.Value != nil {
+			id, ok := rs.Value.(*ast.Ident)
+			if !ok || arr == nil {
+				return nil
+			}
+			if id.Name != "_" {
+				stmts = append(stmts, &ast.AssignStmt{Lhs: []ast.Expr{&ast.Ident{Name: id.Name, NamePos: id.NamePos}}, TokPos: rs.TokPos, Tok: token.DEFINE,
+					Rhs: []ast.Expr{&ast.IndexExpr{X: &ast.Ident{Name: arr.Name, NamePos: arr.NamePos}, Index: idx()}}})
+			}
+		}
+		body := hc.stmtList(rs.Body.List)
+		blk := &ast.BlockStmt{Lbrace: rs.Body.Lbrace, List: append(stmts, body...), Rbrace: rs.Body.Rbrace}
+		if usesContinue {
+			sw := &ast.SwitchStmt{Switch: rs.For, Body: &ast.BlockStmt{Lbrace: rs.For, Rbrace: rs.For, List: []ast.Stmt{&ast.CaseClause{Case: rs.For, Colon: rs.For, Body: blk.List}}}}
+			out.List = append(out.List, &ast.LabeledStmt{Label: nid(hc.contLabel), Colon: rs.For, Stmt: sw})
+		} else {
+			out.List = append(out.List, blk)
+		}
+	}
+	in.stats.Unrolled++
+	if usesBreak {
+		sw := &ast.SwitchStmt{Switch: rs.For, Body: &ast.BlockStmt{Lbrace: rs.For, Rbrace: rs.For, List: []ast.Stmt{&ast.CaseClause{Case: rs.For, Colon: rs.For, Body: out.List}}}}
+		return &ast.LabeledStmt{Label: nid("B" + suffix), Colon: rs.For, Stmt: sw}
+	}
+	return out
+}
+
+func constantInt64(v constant.Value) (int64, bool) {
+	if v == nil || v.Kind() != constant.Int {
+		return 0, false
+	}
+	return constant.Int64Val(v)
 }
 
 func fieldTypeOf(st *types.Struct, name string) types.Type {
